@@ -259,19 +259,20 @@ class MemTermsReader(base.TermsReader):
         return term in self._segment._terminfos
 
     def terms(self):
-        for fieldname in self._invindex:
-            for btext in self._invindex[fieldname]:
+        for fieldname in sorted(self._invindex):
+            for btext in sorted(self._invindex[fieldname]):
                 yield (fieldname, btext)
 
     def terms_from(self, fieldname, prefix):
-        if fieldname not in self._invindex:
-            raise TermNotFound("Unknown field %r" % (fieldname,))
-        terms = sorted(self._invindex[fieldname])
-        if not terms:
-            return
-        start = bisect_left(terms, prefix)
-        for i in xrange(start, len(terms)):
-            yield (fieldname, terms[i])
+        # Every term at or after (fieldname, prefix), continuing through the
+        # following fields
+        for fname in sorted(self._invindex):
+            if fname < fieldname:
+                continue
+            terms = sorted(self._invindex[fname])
+            start = bisect_left(terms, prefix) if fname == fieldname else 0
+            for i in xrange(start, len(terms)):
+                yield (fname, terms[i])
 
     def term_info(self, fieldname, text):
         return self._segment._terminfos[fieldname, text]
